@@ -49,7 +49,7 @@ ErrorE    == [kind |-> "error"]
 OneFrameE == [kind |-> "oneframe"]
 
 ReqExpect(cs, r, cfg) ==
-  IF r.frame THEN [kind |-> "errororclose"]
+  IF r.frame THEN [kind |-> "frameany"]      \* a raw frame (non-array value, odd array): any ONE frame, or the connection is closed
   ELSE IF r.name \notin (Registered \cup cfg.custom) THEN ErrorE                 \* unknown command: error, no call
   ELSE IF ~cs.auth /\ r.name # "AUTH" THEN ErrorE                                  \* password gate (C08)
   ELSE IF r.name \in cfg.custom THEN
@@ -117,22 +117,27 @@ HasRes(c)  == "res" \in DOMAIN c
 ResOK(c)   == HasRes(c) /\ c.res.t = "val"
 ResFail(c) == HasRes(c) /\ c.res.t \in {"goerr", "nilmsg", "both"}
 
+\* does call c make its request fail?  A handler error always does; a handler returning nothing does unless the
+\* framework ignores the result message (MSET, HMSET: reply "ok")
+Fails(e, c) == HasRes(c) /\ (c.res.t \in {"goerr", "both"} \/ (c.res.t = "nilmsg" /\ e.reply # "ok"))
+Aborts(c)   == HasRes(c) /\ c.res.t \in {"goerr", "both"}        \* the executor returns at once
+
 \* expected calls e (Well record) against the observed calls of one request
 CallsMatch(e, calls) ==
   LET n == Len(calls)
-      failed == n >= 1 /\ ResFail(calls[n]) IN
-  /\ \A i \in 1..(n - 1) : ResOK(calls[i])                       \* nothing is called after a failing call
+      aborted == n >= 1 /\ Aborts(calls[n]) IN
+  /\ \A i \in 1..n : HasRes(calls[i])
+  /\ \A i \in 1..(n - 1) : ~Aborts(calls[i])                   \* nothing is called after a handler error
+  /\ n <= Len(e.calls) /\ (aborted \/ n = Len(e.calls))
   /\ IF e.order = "seq"
-     THEN /\ n <= Len(e.calls) /\ (failed \/ n = Len(e.calls))
-          /\ \A i \in 1..n : CallEq(e.calls[i], calls[i])
-     ELSE /\ n <= Len(e.calls) /\ (failed \/ n = Len(e.calls))
-          /\ \A i \in 1..n : \E j \in 1..Len(e.calls) : CallEq(e.calls[j], calls[i])
+     THEN \A i \in 1..n : CallEq(e.calls[i], calls[i])
+     ELSE /\ \A i \in 1..n : \E j \in 1..Len(e.calls) : CallEq(e.calls[j], calls[i])
           /\ \A i, j \in 1..n : i # j => calls[i].a # calls[j].a
 
 \* the reply given the results the handler returned
 ReplyFromResults(e, calls, v) ==
   LET n == Len(calls) IN
-  IF n >= 1 /\ ResFail(calls[n]) THEN v.t = "err"              \* handler error / nothing returned -> error reply
+  IF \E i \in 1..n : Fails(e, calls[i]) THEN v.t = "err"       \* handler error / nothing returned -> error reply
   ELSE CASE e.reply = "ok" -> v = OKV
          [] e.reply = "result" -> IF WellFormed(calls[1].res.v) THEN v = calls[1].res.v ELSE TRUE
          [] e.reply = "array" -> IF \A i \in 1..n : WellFormed(calls[i].res.v)
@@ -198,7 +203,7 @@ OnReply(cs, v, cfg) ==
            done == [cs EXCEPT !.nrep = cs.nrep + 1, !.calls = <<>>, !.rootreplies = cs.rootreplies + 1] IN
     CASE x.kind = "exact" -> IF cs.calls = <<>> /\ v = x.v THEN done ELSE Reject
       [] x.kind = "error" -> IF cs.calls = <<>> /\ v.t = "err" THEN done ELSE Reject
-      [] x.kind = "errororclose" -> IF cs.calls = <<>> /\ v.t = "err" THEN done ELSE Reject
+      [] x.kind = "frameany" -> done
       [] x.kind = "oneframe" -> done
       [] x.kind = "derived" -> done
       [] x.kind = "quit" -> IF cs.calls = <<>> /\ v = OKV THEN [done EXCEPT !.quit = TRUE] ELSE Reject
@@ -210,7 +215,8 @@ OnReply(cs, v, cfg) ==
                                  ELSE Reject
       [] x.kind = "auth" -> IF cs.calls = <<>> /\ AuthAllowed(r, cfg, v)
                             THEN [done EXCEPT !.auth = cs.auth \/ v = OKV] ELSE Reject
-      [] x.kind = "calls" -> IF CallsMatch(x.e, cs.calls) /\ ReplyFromResults(x.e, cs.calls, v) THEN done ELSE Reject
+      [] x.kind = "calls" -> IF ~cfg.rec THEN done                    \* store-backed handler: calls are not recorded
+                             ELSE IF CallsMatch(x.e, cs.calls) /\ ReplyFromResults(x.e, cs.calls, v) THEN done ELSE Reject
 
 \* bytes written by the server (C04: they must assemble into exactly one RESP frame per reply)
 OnWrite(cs, b, failed, cfg) ==
